@@ -234,6 +234,11 @@ Section Lib.
   Definition set_of (l : list key) : store unit := from_pairs slot (map (fun k => (k, tt)) l).
   Definition count_distinct (l : list key) : nat := length (set_of l).
 
+  (* set(x) as a dictionary value, for every iterable x with items l (for a dictionary: its keys): every item is a
+     key whose value is null, and there is no default - whatever values or default x itself had *)
+  Definition set_dict {V} (vnull : V) (l : list key) : store V * option V :=
+    (from_pairs slot (map (fun k => (k, vnull)) l), None).
+
   (* frequencies: *c.entry(k).or_insert(0) += 1 *)
   Fixpoint frequencies_go (l : list key) (c : store N) : store N :=
     match l with
@@ -283,6 +288,11 @@ End Lib.
 Arguments classify slot {X} f l.
 Arguments group_all slot {X} f l.
 Arguments memo_calls slot {R} f calls table.
+
+(* keys / values / items of a dictionary (in HashMap iteration order, which the model does not fix) *)
+Definition dict_keys {V} (s : store V) : list key := map fst s.
+Definition dict_values {V} (s : store V) : list V := map snd s.
+Definition dict_items {V} (s : store V) : list (key * V) := s.
 
 (* ------------------------------------------------------------------ the literal bucket structure *)
 Section Buckets.
